@@ -571,6 +571,25 @@ Lemma pruning_new_R cur p : refines c cur l p -> pruning_R (p_new c cur) (-1).
 Proof.
   intros H. split; [reflexivity|]. exists (-1). split; [apply (refines_first c _ _ _ H)|]. left. auto.
 Qed.
+
+(* seek only needs the child to be a reference cursor AFTER its own seek (recovery after an Err:
+   Proofs_Recover.v) *)
+Lemma seek_R' k cur sk : refines c (c_seek c k cur) l (count (below k) l) ->
+  pruning_R (p_seek_raw c fuel t k (mkP cur sk None)) (count (below k) (prune_spec t l)).
+Proof.
+  intros Hs. pose proof (len_nonneg l) as Hn0. pose proof fuel_big as Hfb.
+  unfold p_seek_raw. cbn [p_cur p_fail].
+  pose proof (count_range (below k) l) as Hq. set (q := count (below k) l) in *.
+  assert (skip_inv q None) as Hinv.
+  { split; [discriminate|]. intros i Hi Hqn Hk _. exfalso.
+    pose proof (count_prefix _ l Hsorted (below_downclosed k) i _ (ent_at l i ltac:(lia))) as B1.
+    pose proof (count_prefix _ l Hsorted (below_downclosed k) q _ (ent_at l q ltac:(lia))) as B2.
+    fold q in B1, B2. unfold below in B1, B2. rewrite Hk in B1.
+    destruct (kltb (K q) k); [destruct B2 as [B2 _]; specialize (B2 eq_refl); lia|destruct B1 as [_ B1]; specialize (B1 ltac:(lia)); discriminate]. }
+  pose proof (seek_loop_spec fuel q _ None Hs Hq Hinv ltac:(lia)) as Hpost.
+  unfold prune_spec. rewrite (count_filter_prefix _ _ _ Hsorted (below_downclosed k)). fold q.
+  apply scan_post_R; [lia|exact Hpost].
+Qed.
 End PruneProof.
 
 Theorem pruning_refines {S} (c : cursor S) (fuel : nat) (t : N) (l : list entry) cur p :
